@@ -34,14 +34,14 @@ def run(ctx):
     obs_path = ctx.path("obs.ndjson")
     ctx.run_harness(["-cases", cpath, "-out", obs_path], timeout=3000, cmd="paging")
     obs = ctx.read_ndjson(obs_path)
-    want = sum(6 if c["sch"] == "lastkey" else 1 for c in cases)
+    want = sum((6 if c["sch"] == "lastkey" else 1) * (len(c["segs"]) if c["k"] == "hist" else 1) for c in cases)
     if len(obs) != want:
         raise vf.Inconclusive("harness produced %d observations, expected %d" % (len(obs), want))
     servers = sorted(set(o["srv"] for o in obs))
     if len(servers) != 7:
         raise vf.Inconclusive("expected the seven paged RPCs, harness drove %s" % servers)
     for o in obs:
-        if o["n"] != cases[o["case"]]["n"]:
+        if o["k"] != "hist" and o["n"] != cases[o["case"]]["n"]:
             raise vf.Inconclusive("%s could not be filled with %d items (holds %d)" %
                                   (o["srv"], cases[o["case"]]["n"], o["n"]))
     # 4. Trace: the property predicates, evaluated by TLC on every walk
@@ -63,6 +63,7 @@ def run(ctx):
     # information (not a verdict): how many real walks have exactly the reference page boundaries
     same = differ = 0
     shapes = collections.Counter()
+    writes = collections.Counter()
     for o in obs:
         c = cases[o["case"]]
         if o["k"] == "walk" and c["expect"] == "pages" and o["err"] == "OK" and o["ended"]:
@@ -70,14 +71,18 @@ def run(ctx):
                 same += 1
             else:
                 differ += 1
-        nontrivial = o["calls"] > 1 or o["err"] != "OK" or o["panic"] != ""
+        nontrivial = o["calls"] > 1 or o["err"] != "OK" or o["panic"] != "" or any(w["sup"] for w in o["ops"])
         if nontrivial:
-            ctx.distinct((o["srv"], o["n"], o["size"], o["tclass"], c["ids"]))
+            ctx.distinct((o["srv"], o["n"], o["size"], o["tclass"], c["ids"], o["ops"]))
+        if o["k"] == "hist" and o["seg"] == len(c["segs"]):
+            for w in o["ops"]:
+                writes[(w["kind"], "unsupported" if not w["sup"] else "accepted" if w["ok"] else "refused")] += 1
         shapes[(o["k"], "error" if o["err"] != "OK" else "ok")] += 1
     ctx.cov["walks_with_reference_page_boundaries"] = same
     ctx.cov["walks_with_other_page_boundaries"] = differ
     ctx.cov["servers"] = servers
     ctx.cov["observation_kinds"] = {"%s/%s" % k: v for k, v in sorted(shapes.items())}
+    ctx.cov["writes_before_walks"] = {"%s/%s" % k: v for k, v in sorted(writes.items())}
     ctx.cov["unsorted_listings"] = sum(1 for o in obs if not o["sorted"] and o["scheme"] == "lastkey")
     for o in obs[:1] + obs[len(obs) // 3: len(obs) // 3 + 2] + obs[-2:]:
         ctx.sample(witness(o, cases[o["case"]]))
@@ -110,6 +115,12 @@ def signature(o, clause):
     if o["k"] == "tok":
         return "C15/%s/%s/token=%s" % (o["srv"], clause, o["tclass"])
     cls = size_class(o["size"])
+    if o["k"] == "hist":
+        # the writes that came before the walk: kinds that were refused / accepted
+        refused = sorted(set(w["kind"] for w in o["ops"] if w["sup"] and not w["ok"]))
+        accepted = sorted(set(w["kind"] for w in o["ops"] if w["sup"] and w["ok"]))
+        return "C15/%s/%s/after-writes/refused=%s/accepted=%s" % (o["srv"], clause, "+".join(refused) or "none",
+                                                                 "+".join(accepted) or "none")
     if clause in ("item-repeated", "item-missing", "items-out-of-listing-order", "item-not-in-listing",
                   "token-chain-did-not-end", "error-on-valid-request"):
         cap = DEFAULT if o["size"] == 0 else min(o["size"], MAX)
@@ -128,6 +139,11 @@ def witness(o, c):
             w[k] = w[k][:20] + ["..."] + w[k][-10:]
     w["reference_lens"] = c["lens"] if len(c["lens"]) <= 40 else c["lens"][:20] + ["..."]
     w["ids"] = c["ids"] if len(c["ids"]) <= 12 else c["ids"][:12] + ["..."]
+    if c["k"] == "hist":
+        w["spec_listing"] = c["segs"][o["seg"] - 1]["listing"]
+    else:
+        for k in ("init", "ops", "flatKeys", "seg"):
+            w.pop(k, None)
     return w
 
 
